@@ -8,9 +8,54 @@ def read_payload():
     return json.loads(sys.stdin.read())
 
 
+LABEL_PROBLEMS = []
+
+
 def emit(obj):
+    if LABEL_PROBLEMS and isinstance(obj, dict):
+        obj["label_problems"] = LABEL_PROBLEMS[:40]
     sys.stdout.write("\n@@JSON " + json.dumps(obj) + "\n")
     sys.stdout.flush()
+
+
+def audit(what, result, owner, dims=None, call=None):
+    """A result is only right if every number is attached to the right point: the labelled arrays the library
+    returns must carry the dimensions of the object they were computed from, in its order, with its coordinate
+    VALUES (not positions, not sorted or rounded copies).  `owner` is the xarray object / Dataset that defines
+    the labels; `dims` the expected dimension names (default: the result's dims must be a sub-sequence of the
+    owner's dims, in the same order).  Problems are collected and reported by the harness as property failures."""
+    import numpy as np
+    try:
+        rd = [str(d) for d in result.dims]
+    except AttributeError:
+        return
+    ods = owner.dataset if hasattr(owner, "dataset") else owner
+    def note(msg):
+        if len(LABEL_PROBLEMS) < 40:
+            LABEL_PROBLEMS.append({"what": what, "problem": msg, "call": call})
+    if dims is not None:
+        if rd != [str(d) for d in dims]:
+            note("dimensions %r, expected %r" % (rd, [str(d) for d in dims]))
+            return
+    else:
+        od = [str(d) for d in ods.dims] if not hasattr(ods, "data_vars") else None
+    for d in rd:
+        if d in ods.coords and d in getattr(ods, "dims", {}):
+            want = np.asarray(ods.coords[d].values)
+            if d not in result.coords:
+                if result.sizes[d] == want.shape[0]:
+                    note("dimension %r carries no coordinate: values can only be read by position" % d)
+                continue
+            got = np.asarray(result.coords[d].values)
+            if got.shape != want.shape:
+                note("coordinate %r has %d labels, the input has %d" % (d, got.shape[0], want.shape[0]))
+            else:
+                try:
+                    same = bool(np.all((got == want) | ((got != got) & (want != want))))
+                except Exception:  # noqa
+                    same = bool(np.array_equal(got, want))
+                if not same:
+                    note("coordinate %r is %s..., the input's is %s..." % (d, str(got[:4]), str(want[:4])))
 
 
 def hx(x):
